@@ -19,7 +19,6 @@ import os
 import random
 import re
 import signal
-import tempfile
 import traceback
 from concurrent.futures import ThreadPoolExecutor
 
@@ -718,12 +717,16 @@ def _init_worker():
 
 
 _TMP = {}
+_SCRATCH = []          # scratch root of the running check (under tlc.workdir()), inherited by the forked workers
 
 
 def _tmp_path():
     pid = os.getpid()
     if pid not in _TMP:
-        d = tempfile.mkdtemp(prefix='verif-c11w-')
+        if not _SCRATCH:
+            _SCRATCH.append(tlc.workdir('c11w'))
+        d = os.path.join(_SCRATCH[0], 'w%d' % pid)
+        os.makedirs(d, exist_ok=True)
         _TMP[pid] = os.path.join(d, 'cut.res')
     return _TMP[pid]
 
@@ -916,6 +919,7 @@ def run_c11(ctx):
     ctx.assume('results of an edition = response lists (datasets, metadata) + batch-level data present in both parses')
     signal.signal(signal.SIGALRM, _on_alarm)
     wd = tlc.workdir('c11')
+    _SCRATCH[:] = [wd]
     modes = ['mono', 'para', 'fatal']
 
     # ---- T4Scan: exhaustive run (invariants + action property), witnesses in parallel
@@ -1123,24 +1127,15 @@ def run_c11(ctx):
 
 
 def _final_from(by_full, full, s):
+    """TLC state (st) of the complete listing `full`, taken from the replayed dump."""
     states = by_full.get(full)
-    if states:
-        return [x for x in states if int(x['pos']) == len(full) and str(x['cut']) == 'none'][0]['st']
-    return _final_by_tlc(full)['st']
+    if not states:
+        raise tlc.MachineryError('witness counterexample uses a listing outside the replayed family')
+    return [x for x in states if int(x['pos']) == len(full) and str(x['cut']) == 'none'][0]['st']
 
 
 def _final_out_from(by_full, full, s):
     states = by_full.get(full)
-    if states:
-        return [x for x in states if int(x['pos']) == len(full) and str(x['cut']) == 'none'][0]['out']
-    return _final_by_tlc(full)['out']
-
-
-_FINALS = {}
-
-
-def _final_by_tlc(full):
-    """State of the complete listing `full` computed by TLC (listing not in the replayed dump): a one-listing run."""
-    if full in _FINALS:
-        return _FINALS[full]
-    raise tlc.MachineryError('witness counterexample uses a listing outside the replayed family; enlarge the dump')
+    if not states:
+        raise tlc.MachineryError('witness counterexample uses a listing outside the replayed family')
+    return [x for x in states if int(x['pos']) == len(full) and str(x['cut']) == 'none'][0]['out']
